@@ -1,5 +1,62 @@
 package vapp
 
-func (p *projector) domain(k string, v []byte) bool { return false }
+import (
+	"encoding/json"
+	"strings"
+)
+
+// DomRec is the projection of one d_<reversed name> record of the domain store (C20).
+type DomRec struct {
+	Owner   string `json:"owner"`
+	Benef   string `json:"benef"`
+	Created int64  `json:"created"`
+	LastUpd int64  `json:"lastUpd"`
+	Expire  int64  `json:"exp"`
+	Active  bool   `json:"active"`
+	OnSale  bool   `json:"sale"`
+	Price   int64  `json:"price"` // asking price in units; 0 when none is recorded
+	URI     string `json:"uri"`
+}
+
+func reverseStr(s string) string {
+	r := []rune(s)
+	for i, j := 0, len(r)-1; i < j; i, j = i+1, j-1 {
+		r[i], r[j] = r[j], r[i]
+	}
+	return string(r)
+}
+
+func (p *projector) domain(k string, v []byte) bool {
+	// data/ons/domain_data.go: the persistent form has one-letter field names; the sale price is the
+	// base64 of its JSON text
+	var r struct {
+		Owner       string `json:"a"`
+		Beneficiary string `json:"b"`
+		Name        string `json:"c"`
+		Created     int64  `json:"d"`
+		LastUpd     int64  `json:"e"`
+		Expire      int64  `json:"f"`
+		Active      bool   `json:"g"`
+		OnSale      bool   `json:"h"`
+		SalePrice   []byte `json:"i"`
+		URI         string `json:"k"`
+	}
+	if err := json.Unmarshal(v, &r); err != nil {
+		return false
+	}
+	name := reverseStr(strings.TrimPrefix(k, "d_"))
+	if r.Name != name {
+		p.s.Bad = append(p.s.Bad, k+":record names "+r.Name)
+	}
+	d := DomRec{Owner: p.nameOf0lt(r.Owner), Created: r.Created, LastUpd: r.LastUpd, Expire: r.Expire, Active: r.Active, OnSale: r.OnSale, URI: r.URI}
+	if r.Beneficiary != "" {
+		d.Benef = p.nameOf0lt(r.Beneficiary)
+	}
+	if len(r.SalePrice) > 0 && string(r.SalePrice) != "null" {
+		d.Price = p.num(k+".salePrice", r.SalePrice)
+	}
+	p.s.Domains[name] = d
+	return true
+}
 
 func (p *projector) evm(k []byte, v []byte) bool { return false }
